@@ -93,26 +93,38 @@ theorem ubSpec_eq_findIdx (x : Val) (xs : List Val) : ubSpec x xs = xs.findIdx (
   | nil => rfl
   | cons y ys ih => simp only [ubSpec, List.findIdx_cons, ih]; by_cases h : x < y <;> simp [h]
 
-theorem lbSpec_eq_findIdx (k : Int) (xs : List Int) : lbSpec k xs = xs.findIdx (fun y => !decide (y < k)) := by
+theorem lbSpec_eq_findIdx (lt : Int → Int → Bool) (k : Int) (xs : List Int) :
+    lbSpec lt k xs = xs.findIdx (fun y => !lt y k) := by
   induction xs with
   | nil => rfl
-  | cons y ys ih => simp only [lbSpec, List.findIdx_cons, ih]; by_cases h : y < k <;> simp [h]
+  | cons y ys ih => simp only [lbSpec, List.findIdx_cons, ih]; cases h : lt y k <;> simp
+
+theorem ubSpecBy_eq_findIdx (lt : Int → Int → Bool) (k : Int) (xs : List Int) :
+    ubSpecBy lt k xs = xs.findIdx (fun y => lt k y) := by
+  induction xs with
+  | nil => rfl
+  | cons y ys ih => simp only [ubSpecBy, List.findIdx_cons, ih]; cases h : lt k y <;> simp
 
 theorem ubSpec_le (x : Val) (xs : List Val) : ubSpec x xs ≤ xs.length := by
   rw [ubSpec_eq_findIdx]; exact List.findIdx_le_length
 
-theorem lbSpec_le (k : Int) (xs : List Int) : lbSpec k xs ≤ xs.length := by
+theorem lbSpec_le (lt : Int → Int → Bool) (k : Int) (xs : List Int) : lbSpec lt k xs ≤ xs.length := by
   rw [lbSpec_eq_findIdx]; exact List.findIdx_le_length
 
+theorem ubSpecBy_le (lt : Int → Int → Bool) (k : Int) (xs : List Int) : ubSpecBy lt k xs ≤ xs.length := by
+  rw [ubSpecBy_eq_findIdx]; exact List.findIdx_le_length
+
 /-- everything in front of `lbSpec` is less than the key -/
-theorem lt_of_lt_lbSpec {k : Int} {xs : List Int} {i : Nat} (h : i < lbSpec k xs) (hi : i < xs.length) : xs[i] < k := by
+theorem lt_of_lt_lbSpec {lt : Int → Int → Bool} {k : Int} {xs : List Int} {i : Nat} (h : i < lbSpec lt k xs)
+    (hi : i < xs.length) : lt xs[i] k = true := by
   rw [lbSpec_eq_findIdx] at h
   have := List.not_of_lt_findIdx h
   simpa using this
 
 /-- the element at `lbSpec` (if any) is not less than the key -/
-theorem not_lt_at_lbSpec {k : Int} {xs : List Int} (h : lbSpec k xs < xs.length) : ¬ xs[lbSpec k xs] < k := by
-  have h' : xs.findIdx (fun y => !decide (y < k)) < xs.length := by rw [← lbSpec_eq_findIdx]; exact h
+theorem not_lt_at_lbSpec {lt : Int → Int → Bool} {k : Int} {xs : List Int} (h : lbSpec lt k xs < xs.length) :
+    lt xs[lbSpec lt k xs] k = false := by
+  have h' : xs.findIdx (fun y => !lt y k) < xs.length := by rw [← lbSpec_eq_findIdx]; exact h
   have := List.findIdx_getElem (w := h')
   simp only [← lbSpec_eq_findIdx] at this
   simpa using this
@@ -145,8 +157,9 @@ theorem upperBound_eq_bisect (b : Buf) (g : Nat → Val) (x : Val) (n : Nat) (hb
       · exact ih first (len / 2) (by omega)
       · exact ih (first + len / 2 + 1) (len - len / 2 - 1) (by omega)
 
-theorem mapUpper_eq_bisect (m : List (Int × Int)) (k : Int) (fuel first len : Nat) (hr : first + len ≤ m.length) :
-    mapUpper m k fuel first len = bisect (fun i => decide (k < (m.getD i (0, 0)).1)) fuel first len := by
+theorem mapUpper_eq_bisect (lt : Int → Int → Bool) (m : List (Int × Int)) (k : Int) (fuel first len : Nat)
+    (hr : first + len ≤ m.length) :
+    mapUpper lt m k fuel first len = bisect (fun i => lt k (m.getD i (0, 0)).1) fuel first len := by
   induction fuel generalizing first len with
   | zero => rfl
   | succ f ih =>
@@ -154,14 +167,14 @@ theorem mapUpper_eq_bisect (m : List (Int × Int)) (k : Int) (fuel first len : N
     by_cases h0 : len = 0
     · simp [h0]
     · have hlt : first + len / 2 < m.length := by omega
-      simp only [h0, if_false, List.getElem?_eq_getElem hlt, List.getD_eq_getElem?_getD, Option.getD_some,
-        decide_eq_true_eq]
+      simp only [h0, if_false, List.getElem?_eq_getElem hlt, List.getD_eq_getElem?_getD, Option.getD_some]
       split
       · exact ih first (len / 2) (by omega)
       · exact ih (first + len / 2 + 1) (len - len / 2 - 1) (by omega)
 
-theorem lowerBound_eq_bisect (s : List Int) (k : Int) (fuel first len : Nat) (hr : first + len ≤ s.length) :
-    lowerBound s k fuel first len = bisect (fun i => !decide (s.getD i 0 < k)) fuel first len := by
+theorem lowerBound_eq_bisect (lt : Int → Int → Bool) (s : List Int) (k : Int) (fuel first len : Nat)
+    (hr : first + len ≤ s.length) :
+    lowerBound lt s k fuel first len = bisect (fun i => !lt (s.getD i 0) k) fuel first len := by
   induction fuel generalizing first len with
   | zero => rfl
   | succ f ih =>
@@ -170,11 +183,11 @@ theorem lowerBound_eq_bisect (s : List Int) (k : Int) (fuel first len : Nat) (hr
     · simp [h0]
     · have hlt : first + len / 2 < s.length := by omega
       simp only [h0, if_false, List.getElem?_eq_getElem hlt, List.getD_eq_getElem?_getD, Option.getD_some]
-      by_cases hc : s[first + len / 2] < k
-      · simp only [hc, if_true, decide_true, Bool.not_true, Bool.false_eq_true, if_false]
-        exact ih (first + len / 2 + 1) (len - len / 2 - 1) (by omega)
-      · simp only [hc, if_false, decide_false, Bool.not_false, if_true]
+      cases hc : lt s[first + len / 2] k
+      · simp only [Bool.false_eq_true, if_false, Bool.not_false, if_true]
         exact ih first (len / 2) (by omega)
+      · simp only [if_true, Bool.not_true, Bool.false_eq_true, if_false]
+        exact ih (first + len / 2 + 1) (len - len / 2 - 1) (by omega)
 
 /-! ### on sorted input the bisection returns the specification position -/
 
@@ -203,17 +216,19 @@ theorem bisect_ub_sorted (xs : List Val) (x : Val) (hs : xs.Pairwise (· ≤ ·)
     have := d i hge (by omega)
     simpa [List.getD_eq_getElem?_getD, List.getElem?_eq_getElem hi] using this
 
-/-- std::lower_bound (the libstdc++ loop) on a sorted sequence = first index whose element is not less than `k` -/
-theorem bisect_lb_sorted (xs : List Int) (k : Int) (hs : xs.Pairwise (· ≤ ·)) :
-    bisect (fun i => !decide (xs.getD i 0 < k)) xs.length 0 xs.length = lbSpec k xs := by
-  obtain ⟨_, b, c, d⟩ := bisect_spec (fun i => !decide (xs.getD i 0 < k)) xs.length 0 xs.length (Nat.le_refl _) (by
+/-- the bisection over a list on which `p` is monotone (false … false true … true) returns `findIdx p` -/
+theorem bisect_findIdx (p : Int → Bool) (xs : List Int)
+    (hm : ∀ i j (hij : i < j) (hj : j < xs.length), p (xs[i]'(by omega)) = true → p xs[j] = true) :
+    bisect (fun i => p (xs.getD i 0)) xs.length 0 xs.length = xs.findIdx p := by
+  obtain ⟨_, b, c, d⟩ := bisect_spec (fun i => p (xs.getD i 0)) xs.length 0 xs.length (Nat.le_refl _) (by
     intro i j _ hij hj hi
     simp only [Nat.zero_add] at hj
-    simp only [Bool.not_eq_true', decide_eq_false_iff_not, List.getD_eq_getElem?_getD, List.getElem?_eq_getElem hj,
+    simp only [List.getD_eq_getElem?_getD, List.getElem?_eq_getElem hj,
       List.getElem?_eq_getElem (show i < xs.length by omega), Option.getD_some] at hi ⊢
-    have := sorted_get hs hij hj
-    omega)
-  rw [lbSpec_eq_findIdx]
+    rcases Nat.lt_or_ge i j with h | h
+    · exact hm i j h hj hi
+    · have : i = j := by omega
+      subst this; exact hi)
   refine findIdx_unique _ xs _ (by omega) ?_ ?_
   · intro i hi hlt
     have := c i (Nat.zero_le _) hlt
@@ -222,28 +237,44 @@ theorem bisect_lb_sorted (xs : List Int) (k : Int) (hs : xs.Pairwise (· ≤ ·)
     have := d i hge (by omega)
     simpa [List.getD_eq_getElem?_getD, List.getElem?_eq_getElem hi] using this
 
-/-- flat_set: `std::lower_bound(_vec.begin(), _vec.end(), key)` as modelled = `lbSpec` on sorted storage -/
-theorem lowerBound_sorted (xs : List Int) (k : Int) (hs : xs.Pairwise (· ≤ ·)) :
-    lowerBound xs k xs.length 0 xs.length = lbSpec k xs := by
-  rw [lowerBound_eq_bisect xs k _ _ _ (by omega)]
-  exact bisect_lb_sorted xs k hs
+/-- what the theorems need of the comparator for the bisections: transitivity -/
+def LtTrans (lt : Int → Int → Bool) : Prop := ∀ a b c, lt a b = true → lt b c = true → lt a c = true
 
-theorem lowerBound_le (xs : List Int) (k : Int) : lowerBound xs k xs.length 0 xs.length ≤ xs.length := by
-  rw [lowerBound_eq_bisect xs k _ _ _ (by omega)]
-  have := (bisect_range (fun i => !decide (xs.getD i 0 < k)) xs.length 0 xs.length).2
+/-- flat_set: `std::lower_bound(_vec.begin(), _vec.end(), key, _comp)` as modelled = `lbSpec` on a storage
+    that is strictly increasing under the comparator -/
+theorem lowerBound_sorted (lt : Int → Int → Bool) (ht : LtTrans lt) (xs : List Int) (k : Int)
+    (hs : xs.Pairwise (fun a b => lt a b = true)) :
+    lowerBound lt xs k xs.length 0 xs.length = lbSpec lt k xs := by
+  rw [lowerBound_eq_bisect lt xs k _ _ _ (by omega), lbSpec_eq_findIdx]
+  refine bisect_findIdx (fun y => !lt y k) xs ?_
+  intro i j hij hj hi
+  have h1 := (List.pairwise_iff_getElem.mp hs) i j (by omega) hj hij
+  cases h2 : lt xs[j] k with
+  | false => rfl
+  | true => have := ht _ _ _ h1 h2; simp [this] at hi
+
+theorem lowerBound_le (lt : Int → Int → Bool) (xs : List Int) (k : Int) :
+    lowerBound lt xs k xs.length 0 xs.length ≤ xs.length := by
+  rw [lowerBound_eq_bisect lt xs k _ _ _ (by omega)]
+  have := (bisect_range (fun i => !lt (xs.getD i 0) k) xs.length 0 xs.length).2
   omega
 
 /-- flat_map::insert: the position `std::upper_bound` answers lies inside the storage, sorted or not -/
-theorem mapUpper_le (m : List (Int × Int)) (k : Int) : mapUpper m k m.length 0 m.length ≤ m.length := by
-  rw [mapUpper_eq_bisect m k _ _ _ (by omega)]
-  have := (bisect_range (fun i => decide (k < (m.getD i (0, 0)).1)) m.length 0 m.length).2
+theorem mapUpper_le (lt : Int → Int → Bool) (m : List (Int × Int)) (k : Int) :
+    mapUpper lt m k m.length 0 m.length ≤ m.length := by
+  rw [mapUpper_eq_bisect lt m k _ _ _ (by omega)]
+  have := (bisect_range (fun i => lt k (m.getD i (0, 0)).1) m.length 0 m.length).2
   omega
 
-/-- flat_map::insert on a storage sorted by key: `std::upper_bound` as modelled = `ubSpec` of the keys -/
-theorem mapUpper_sorted (m : List (Int × Int)) (k : Int) (hs : (m.map (·.1)).Pairwise (· ≤ ·)) :
-    mapUpper m k m.length 0 m.length = ubSpec k (m.map (·.1)) := by
-  rw [mapUpper_eq_bisect m k _ _ _ (by omega)]
-  have := bisect_ub_sorted (m.map (·.1)) k hs
+/-- flat_map::insert on a storage strictly increasing by key: `std::upper_bound` as modelled = `ubSpecBy` of the keys -/
+theorem mapUpper_sorted (lt : Int → Int → Bool) (ht : LtTrans lt) (m : List (Int × Int)) (k : Int)
+    (hs : (m.map (·.1)).Pairwise (fun a b => lt a b = true)) :
+    mapUpper lt m k m.length 0 m.length = ubSpecBy lt k (m.map (·.1)) := by
+  rw [mapUpper_eq_bisect lt m k _ _ _ (by omega), ubSpecBy_eq_findIdx]
+  have := bisect_findIdx (fun y => lt k y) (m.map (·.1)) (by
+    intro i j hij hj hi
+    have h1 := (List.pairwise_iff_getElem.mp hs) i j (by omega) hj hij
+    exact ht _ _ _ hi h1)
   simp only [List.length_map] at this
   rw [← this]
   congr 1
